@@ -83,7 +83,8 @@ enum VClass
     V_INVARIANT = 2,  // inside a small invariant subspace (exact for block-diag worlds)
     V_TINY = 3,       // generic with norm ~1e-100 (1e-12 for float)
     V_HUGE = 4,       // generic with norm ~1e+100 (1e+12 for float)
-    V_COORD = 5       // a coordinate vector
+    V_COORD = 5,      // a coordinate vector
+    V_WARM = 6        // warm start: an exact eigenvector (long double) plus relative noise 1e-12..1e-6; generated for nev == 1 only
 };
 
 enum OpKind
